@@ -470,14 +470,31 @@ func (e *Exec) libModel(st *State, callee *ssa.Function, cc *ssa.CallCommon, arg
 		r := e.freshVal(st, "stridx", resT)
 		// -1 or a position inside s
 		e.assume(st, and(e.le(e.sc.idxLit(-1), r.S), e.lt(r.S, "(str-len "+args[0].S+")")))
-		if e.mode == ModeBV {
+		if e.mode == ModeBV && (name == "strings.Index" || name == "strings.LastIndex") {
+			// a found separator lies inside s (the byte / rune variants take a scalar, not a string)
 			e.assume(st, or(eq(r.S, e.sc.idxLit(-1)), e.le(e.add(r.S, "(str-len "+args[len(args)-1].S+")"), "(str-len "+args[0].S+")")))
+		}
+		if name == "strings.IndexByte" || name == "strings.LastIndexByte" {
+			at := fmt.Sprintf("(select (str-arr %s) %s)", args[0].S, e.add("(str-off "+args[0].S+")", r.S))
+			e.assume(st, imp(not(eq(r.S, e.sc.idxLit(-1))), eq(at, args[1].S)))
 		}
 		if c, ok := cc.Args[len(cc.Args)-1].(*ssa.Const); ok && (name == "strings.Index" || name == "strings.LastIndex") {
 			if sep := constantString(c); len(sep) == 1 {
 				// the separator is found at the reported position
 				at := fmt.Sprintf("(select (str-arr %s) %s)", args[0].S, e.add("(str-off "+args[0].S+")", r.S))
 				e.assume(st, imp(not(eq(r.S, e.sc.idxLit(-1))), eq(at, e.sc.byteLit(int(sep[0])))))
+				// ... and it is the first (Index) / the last (LastIndex) one: no separator before / after it
+				e.sc.n++
+				q := fmt.Sprintf("q.sep.%d", e.sc.n)
+				elem := fmt.Sprintf("(select (str-arr %s) %s)", args[0].S, e.add("(str-off "+args[0].S+")", q))
+				inStr := and(e.le(e.sc.idxLit(0), q), e.lt(q, "(str-len "+args[0].S+")"))
+				var rng string
+				if name == "strings.Index" {
+					rng = and(inStr, or(eq(r.S, e.sc.idxLit(-1)), e.lt(q, r.S)))
+				} else {
+					rng = and(inStr, e.lt(r.S, q))
+				}
+				e.assume(st, fmt.Sprintf("(forall ((%s %s)) (=> %s (not (= %s %s))))", q, e.sc.idx(), rng, elem, e.sc.byteLit(int(sep[0]))))
 			}
 		}
 		set(r)
